@@ -35,6 +35,7 @@ type inlineCand struct {
 	fs          *FuncSrc
 	exprOnly    ast.Expr // single `return expr` body
 	genericRecv bool
+	deferLit    bool // has a deferred function literal (which may change the named results)
 	defers      []*ast.DeferStmt
 }
 
@@ -166,6 +167,34 @@ func (p *Program) normaliseOnce(known map[string]bool, round int) (map[string][]
 			edits[fname] = append(edits[fname], textEdit{start, end, "func() { " + string(b[start:end]) + " }()"})
 			everInlined[cand.fs.Name] = true
 			notes = append(notes, fmt.Sprintf("deferred call of %s in %s at %s wrapped in a function literal", cand.fs.Name, cs.In.Root().Name, p.PosStr(cs.Call.Pos())))
+			continue
+		}
+		// `if H(x) != y {`: the call is evaluated first and unconditionally; it is
+		// hoisted into a temporary in front of the if (`t := H(x); if t != y {`),
+		// which the next round inlines as an assignment
+		if ifs, tmpOK := p.hoistableCondCall(cs); tmpOK && cand.exprOnly == nil {
+			if busyStmt[ifs] {
+				continue
+			}
+			busyStmt[ifs] = true
+			seq++
+			tmp := fmt.Sprintf("h_i%d_%d", round, seq)
+			cstart, cend := file.Offset(cs.Call.Pos()), file.Offset(cs.Call.End())
+			istart := file.Offset(ifs.Pos())
+			overlap := false
+			for _, o := range edits[fname] {
+				if (cstart < o.end && o.start < cend) || (istart <= o.end && o.start <= istart) {
+					overlap = true
+				}
+			}
+			if overlap {
+				continue
+			}
+			edits[fname] = append(edits[fname],
+				textEdit{cstart, cend, tmp},
+				textEdit{istart, istart, tmp + " := " + strings.ReplaceAll(string(b[cstart:cend]), "\n", " ") + "; "})
+			everInlined[cand.fs.Name] = true
+			notes = append(notes, fmt.Sprintf("call of %s in a condition of %s at %s hoisted into a temporary", cand.fs.Name, cs.In.Root().Name, p.PosStr(cs.Call.Pos())))
 			continue
 		}
 		seq++
@@ -320,8 +349,25 @@ func (p *Program) inlinable(fs *FuncSrc) *inlineCand {
 					ok = false // the argument would be evaluated at another time
 				}
 			}
-			if _, isLit := x.Call.Fun.(*ast.FuncLit); isLit {
-				ok = false
+			if lit, isLit := x.Call.Fun.(*ast.FuncLit); isLit {
+				// defer func() { ... }(): the body is run in place at every return that
+				// follows it (after the results are set), provided it cannot return early,
+				// recover, or be handed anything
+				if len(x.Call.Args) != 0 || (lit.Type.Params != nil && len(lit.Type.Params.List) != 0) || (lit.Type.Results != nil && len(lit.Type.Results.List) != 0) {
+					ok = false
+				}
+				ast.Inspect(lit.Body, func(m ast.Node) bool {
+					switch y := m.(type) {
+					case *ast.ReturnStmt, *ast.FuncLit, *ast.DeferStmt:
+						ok = false
+					case *ast.CallExpr:
+						if id, isId := unparen(y.Fun).(*ast.Ident); isId && id.Name == "recover" {
+							ok = false
+						}
+					}
+					return true
+				})
+				c.deferLit = true
 			}
 			c.defers = append(c.defers, x)
 		}
@@ -612,6 +658,7 @@ func (p *Program) inlineAt(cs *CallSite, cand *inlineCand, tag string, read func
 		}
 		return o.Name() + tag
 	}
+	var bodyEditsRef func(from, to token.Pos) string
 	bodyEdits := func(from, to token.Pos, extra func(n ast.Node) (textEdit, bool, bool)) string {
 		// text of the callee between from and to with identifiers renamed and extra edits applied
 		var es []textEdit
@@ -669,6 +716,7 @@ func (p *Program) inlineAt(cs *CallSite, cand *inlineCand, tag string, read func
 	okQ := true
 	qual := qualifierFor(caller.Pkg.Types, caller.File, info, &okQ)
 	typeStr := func(t types.Type) string { return types.TypeString(t, qual) }
+	bodyEditsRef = func(from, to token.Pos) string { return bodyEdits(from, to, nil) }
 
 	// ---------- expression-level inlining ----------
 	if cand.exprOnly != nil {
@@ -825,6 +873,7 @@ func (p *Program) inlineAt(cs *CallSite, cand *inlineCand, tag string, read func
 	}
 	// tail call: `return H(..)` - every return of H becomes a return of the caller
 	tail := role == "return" && len(cand.defers) == 0
+	noCont := cand.deferLit // the deferred literal may change the results after they are set
 	// continuation inlining: `if v := H(..); v != nil { ...; return }` and
 	// `if [!]H(..) { ...; return }` are rewritten so that every return of H
 	// tests its own value and runs the caller's branch itself - the shape the
@@ -832,7 +881,7 @@ func (p *Program) inlineAt(cs *CallSite, cand *inlineCand, tag string, read func
 	contKind, contVar := "", ""
 	contAssign := false
 	var contThen *ast.BlockStmt
-	if ifs, ok := stmt.(*ast.IfStmt); ok && ifs.Else == nil && (role == "ifinit" || role == "ifcond") && sig.Results().Len() == 1 && len(ifs.Body.List) > 0 {
+	if ifs, ok := stmt.(*ast.IfStmt); ok && !noCont && ifs.Else == nil && (role == "ifinit" || role == "ifcond") && sig.Results().Len() == 1 && len(ifs.Body.List) > 0 {
 		if endsWithJump(ifs.Body) {
 			if role == "ifinit" {
 				as := ifs.Init.(*ast.AssignStmt)
@@ -858,7 +907,7 @@ func (p *Program) inlineAt(cs *CallSite, cand *inlineCand, tag string, read func
 	contEnd := stmt.End()
 	contPre := ""
 	contLHS := ""
-	if as, ok := stmt.(*ast.AssignStmt); ok && role == "assign" && contKind == "" && sig.Results().Len() == len(as.Lhs) && len(as.Lhs) >= 1 {
+	if as, ok := stmt.(*ast.AssignStmt); ok && !noCont && role == "assign" && contKind == "" && sig.Results().Len() == len(as.Lhs) && len(as.Lhs) >= 1 {
 		allIdents := true
 		var names []string
 		for _, l := range as.Lhs {
@@ -1012,11 +1061,21 @@ func (p *Program) inlineAt(cs *CallSite, cand *inlineCand, tag string, read func
 	var deferred []string
 	for i := len(cand.defers) - 1; i >= 0; i-- {
 		d := cand.defers[i]
+		if lit, isLit := d.Call.Fun.(*ast.FuncLit); isLit {
+			deferred = append(deferred, "\x00"+bodyEdits(lit.Body.Lbrace, lit.Body.Rbrace+1, nil))
+			continue
+		}
 		deferred = append(deferred, bodyEdits(d.Call.Pos(), d.Call.End(), nil))
+	}
+	oneLine := func(d string) string {
+		if strings.HasPrefix(d, "\x00") {
+			return d[1:] // a block: its lines are kept
+		}
+		return strings.ReplaceAll(d, "\n", " ")
 	}
 	dtextAll := ""
 	for _, d := range deferred {
-		dtextAll += strings.ReplaceAll(d, "\n", " ") + "; "
+		dtextAll += oneLine(d) + "; "
 	}
 	// the deferred calls a return at pos runs: those of the (top-level) defer
 	// statements that precede it, last first
@@ -1024,16 +1083,76 @@ func (p *Program) inlineAt(cs *CallSite, cand *inlineCand, tag string, read func
 		out := ""
 		for i := len(cand.defers) - 1; i >= 0; i-- {
 			if cand.defers[i].Pos() < pos {
-				out += strings.ReplaceAll(deferred[len(cand.defers)-1-i], "\n", " ") + "; "
+				out += oneLine(deferred[len(cand.defers)-1-i]) + "; "
 			}
 		}
 		return out
 	}
+	// parameters and results of the helper: declared outside the block its body becomes
+	outer := map[types.Object]bool{}
+	for _, fl := range []*ast.FieldList{fd.Recv, fd.Type.Params, fd.Type.Results} {
+		if fl == nil {
+			continue
+		}
+		for _, fld := range fl.List {
+			for _, nm := range fld.Names {
+				if o := dinfo.Defs[nm]; o != nil {
+					outer[o] = true
+				}
+			}
+		}
+	}
+	extraFail := false
 	extra := func(n ast.Node) (textEdit, bool, bool) {
 		switch x := n.(type) {
 		case *ast.FuncLit:
 			// identifiers inside are still renamed, returns are the literal's own
 			return textEdit{}, false, true
+		case *ast.AssignStmt:
+			// `f, err := g()` re-using a parameter or named result: in the helper both
+			// live in one scope; here the body is a nested block, where := would
+			// declare a new err.  Written out as declaration plus assignment.
+			if x.Tok != token.DEFINE || inLit(fd.Body, x) {
+				return textEdit{}, false, true
+			}
+			reuses := false
+			for _, l := range x.Lhs {
+				if id, ok := l.(*ast.Ident); ok && dinfo.Defs[id] == nil && outer[dinfo.Uses[id]] {
+					reuses = true
+				}
+			}
+			if !reuses {
+				return textEdit{}, false, true
+			}
+			var sb strings.Builder
+			var names []string
+			for _, l := range x.Lhs {
+				id, ok := l.(*ast.Ident)
+				if !ok {
+					extraFail = true
+					return textEdit{}, false, true
+				}
+				if id.Name == "_" {
+					names = append(names, "_")
+					continue
+				}
+				if o := dinfo.Defs[id]; o != nil {
+					ts := typeStr(o.Type())
+					fmt.Fprintf(&sb, "var %s %s; _ = %s; ", rename(o), ts, rename(o))
+					names = append(names, rename(o))
+				} else if o := dinfo.Uses[id]; o != nil {
+					names = append(names, rename(o))
+				} else {
+					extraFail = true
+					return textEdit{}, false, true
+				}
+			}
+			var rhs []string
+			for _, r := range x.Rhs {
+				rhs = append(rhs, bodyEditsRef(r.Pos(), r.End()))
+			}
+			sb.WriteString(strings.Join(names, ", ") + " = " + strings.Join(rhs, ", "))
+			return textEdit{off(dfile, x.Pos()), off(dfile, x.End()), sb.String()}, true, false
 		case *ast.DeferStmt:
 			return textEdit{off(dfile, x.Pos()), off(dfile, x.End()), ""}, true, false
 		case *ast.ReturnStmt:
@@ -1138,7 +1257,7 @@ func (p *Program) inlineAt(cs *CallSite, cand *inlineCand, tag string, read func
 				for _, r := range x.Results {
 					parts = append(parts, bodyEdits(r.Pos(), r.End(), nil))
 				}
-				sb.WriteString(strings.Join(rnames, ", ") + " = " + strings.Join(parts, ", ") + "; ")
+				sb.WriteString(strings.Join(rnames, ", ") + " = " + strings.ReplaceAll(strings.Join(parts, ", "), "\n", " ") + "; ")
 			} else if nres > 0 && !named {
 				return textEdit{}, false, true
 			}
@@ -1148,11 +1267,14 @@ func (p *Program) inlineAt(cs *CallSite, cand *inlineCand, tag string, read func
 			} else {
 				sb.WriteString("}")
 			}
-			return textEdit{off(dfile, x.Pos()), off(dfile, x.End()), strings.ReplaceAll(sb.String(), "\n", " ")}, true, false
+			return textEdit{off(dfile, x.Pos()), off(dfile, x.End()), sb.String()}, true, false
 		}
 		return textEdit{}, false, true
 	}
 	body := bodyEdits(fd.Body.Lbrace+1, fd.Body.Rbrace, extra)
+	if extraFail || !okQ {
+		return inlFail()
+	}
 	endsWithReturn := false
 	if n := len(fd.Body.List); n > 0 {
 		_, endsWithReturn = fd.Body.List[n-1].(*ast.ReturnStmt)
@@ -1660,4 +1782,62 @@ func endsWithJump(b *ast.BlockStmt) bool {
 		return endsWithJump(x)
 	}
 	return false
+}
+
+// hoistableCondCall: the call sits inside the condition of an if statement
+// (not as the whole condition, which inlineAt handles) at a place that is
+// always evaluated, before anything with an effect: on the way up to the
+// condition it is only ever an operand of a comparison or arithmetic
+// operator, or the left operand of && / ||, and what stands to its left has
+// no effect.  The if must stand directly in a block and have no init.
+func (p *Program) hoistableCondCall(cs *CallSite) (*ast.IfStmt, bool) {
+	file := cs.In.File
+	info := cs.In.Pkg.TypesInfo
+	var cur ast.Node = cs.Call
+	for {
+		par := p.Parent(file, cur)
+		switch x := par.(type) {
+		case *ast.ParenExpr:
+			cur = x
+			continue
+		case *ast.UnaryExpr:
+			if x.Op == token.ARROW || x.Op == token.AND {
+				return nil, false
+			}
+			cur = x
+			continue
+		case *ast.BinaryExpr:
+			if x.Y == cur {
+				if x.Op == token.LAND || x.Op == token.LOR || !simpleExpr(x.X) {
+					return nil, false
+				}
+			}
+			cur = x
+			continue
+		case *ast.IfStmt:
+			if x.Cond != cur || x.Init != nil {
+				return nil, false
+			}
+			if unparen(x.Cond) == ast.Expr(cs.Call) {
+				return nil, false
+			}
+			if u, ok := unparen(x.Cond).(*ast.UnaryExpr); ok && u.Op == token.NOT && unparen(u.X) == ast.Expr(cs.Call) {
+				return nil, false
+			}
+			switch pp := p.Parent(file, x).(type) {
+			case *ast.BlockStmt, *ast.CaseClause, *ast.CommClause:
+				_ = pp
+			default:
+				return nil, false
+			}
+			// a single result
+			if tv, ok := info.Types[cs.Call]; !ok || tv.Type == nil {
+				return nil, false
+			} else if _, isTuple := tv.Type.(*types.Tuple); isTuple {
+				return nil, false
+			}
+			return x, true
+		}
+		return nil, false
+	}
 }
